@@ -175,6 +175,10 @@ Proof.
     unfold insert_at. rewrite subs_l_app. rewrite forallb_app. apply andb_true_iff; split;
       [apply forallb_subs_firstn; assumption |].
     unfold subs_l. cbn [flat_map subs]. simpl. apply forallb_subs_skipn; assumption.
+    destruct p as [| i0 p0]; [| discriminate H].
+    destruct (mem (NLeaf LCodeBlock) (rkinds r)); [discriminate H |].
+    injection H as <-. destruct (mem (NS ACCRoutine) (map kind_of r)); [exact Hg |].
+    unfold subs_l. simpl. exact Hg.
 Qed.
 
 Lemma directive_free_gap_free : forall r, forallb directive_free r = true -> gap_free r = true.
